@@ -76,7 +76,7 @@ def floors(tier):
                         "route_zero_weight_edge": 300, "route_against_storage": 500, "route_multi_vertex_edge": 500,
                         "route_parallel_alternative": 200, "route_multi_hop": 300, "route_4plus_edges": 50 if q else 500,
                         "nodes_10_to_12": 50 if q else 500, "edges_25_to_40": 30 if q else 300,
-                        "network_of_hundreds_of_nodes": 4, "route_of_more_than_1000_hops": 2,
+                        "network_of_hundreds_of_nodes": 4, "route_of_more_than_1000_hops": 2, "edges_reweighted_in_place": 300,
                         "identifiers:digits": 100, "identifiers:int": 100},
             "distinct_nontrivial": 2000 if q else 50000}
 
@@ -427,6 +427,50 @@ def run_case(case, ctx):
                                     "details": prob[1], "s": ids[a], "t": ids[b], "path": list(path),
                                     "extraction": [ids[s0], cutv]})
             cls.add("sub_network_queried")
+    # the caller re-weights the edges of THIS network in place (Edge.weight is how weights are given) and goes on asking
+    # for routes, first from the source of the last request
+    if (not big) and n >= 2 and len(spec["edges"]) >= 1 and case["ord"] % 3 == 1:
+        hr = random.Random(case["ord"] + 17)
+        s0 = hr.randrange(n)
+        M.call(net.shortest_path, ids[s0], ids[(s0 + 1 + hr.randrange(n - 1)) % n])
+        W = [e[2] for e in spec["edges"]]
+        W2 = (W[1:] + W[:1]) if len(set(W)) > 1 else [w + 1.0 + k for k, w in enumerate(W)]
+        spec2 = dict(spec)
+        spec2["edges"] = [type(e)(list(e[:2]) + [w2] + list(e[3:])) for e, w2 in zip(spec["edges"], W2)]
+        for eid, w2 in zip(_e, W2):
+            net.EDGES[eid].weight = w2
+        A2 = G.arcs(spec2)
+        D2 = G.floyd_warshall(n, A2)
+        rp = [(s0, t) for t in range(n) if t != s0] + [(hr.randrange(n), hr.randrange(n)) for _ in range(8)]
+        for (a, b) in [q for q in rp if q[0] != q[1]][:12]:
+            trp = M.call(net.shortest_path, ids[a], ids[b])
+            d = D2[a][b]
+            what, details = None, None
+            if M.is_raised(trp):
+                what, details = "shortest_path raised", repr(trp)
+            elif d == G.INF:
+                what = "a path is returned although the target is unreachable" if trp is not None else None
+            elif trp is None:
+                what = "no path returned although the target is reachable"
+            else:
+                path = getattr(trp, "path", None)
+                coords = M.call(G.track_coords, trp)
+                if M.is_raised(coords) or not isinstance(path, (list, tuple)) or len(path) < 2 or \
+                        any(q not in ids for q in path) or path[0] != ids[a] or path[-1] != ids[b]:
+                    what = "no valid node list / coordinates"
+                else:
+                    ctx.monitor(ROUTE)
+                    prob, _f = judge_route(spec2, A2, [ids.index(q) for q in path], coords, d)
+                    if prob:
+                        what, details = prob[0], prob[1]
+                    else:
+                        judged_paths += 1
+            if what:
+                return bad({"what": what + " (after the caller changed the weights of the network's edges in place; judged "
+                                    "against the weights as they are now)", "details": details, "s": ids[a], "t": ids[b],
+                            "weights_before": W, "weights_now": W2, "true_distance_now": d})
+        cls.add("edges_reweighted_in_place")
+        spec, A, D = spec2, A2, D2          # what the "again" request below is judged against
     ctx.count("paths_validated", judged_paths)
     res = held(sig, judged_paths > 0, sorted(cls))
 
